@@ -1657,3 +1657,90 @@ _jobs_clear = jobs
 
 def jobs(tier):
     return _jobs_clear(tier) + [(h_string_encoding, (n,), 900) for n in ((2,) if tier == 'quick' else (0, 2, 3))]
+
+
+C128B = 'src/libawkward/builder/Complex128Builder.cpp'
+
+
+@guard
+def h_int64_complex(n, reserved_c):
+    """Int64Builder::complex(z) with n integers appended so far in a buffer of the given capacity: the builder that takes over holds the n integers
+    as complex numbers (imaginary part 0), in order, followed by z; every read stays inside the integers' buffer and every write inside the new
+    buffer (the conversion touches n entries, not 2n)"""
+    from .cpp01 import struct_of
+    mod = module_of(I64B)
+    fo, sz, al, fields = mod.types.struct_layout(struct_of(mod, '_ZN7awkward12Int64Builder4realEd'))
+    m = MCtx([I64B, C128B, GB, 'src/libawkward/builder/ArrayBuilderOptions.cpp', 'src/libawkward/kernel-dispatch.cpp'], unwind=2 * n + 10, stubs=dict(COMMON_STUBS))
+    re_, im_ = m.fp('re'), m.fp('im')
+    m.record('ctrl', {0: (NULL, 8), 8: (z3.BitVecVal(1, 32), 4), 12: (z3.BitVecVal(1, 32), 4)})
+    st0 = State({}, m.mem, z3.BoolVal(True))
+    vt = m.eng.global_ptr(st0, '@_ZTVN7awkward12Int64BuilderE', mod)
+    cells = {0: (Ptr(vt.obj, 16), 8), 8: (Ptr('ib', 0), 8), 16: (Ptr('ctrl', 0), 8), fo[1]: (BV(8), 8), fo[1] + 8: (z3.FPVal(1.5, z3.Float64()), 8)}
+    a0 = _growable(m, 'ints', BV(n), BV(reserved_c), fo[2], cells, 'ib')
+    this = m.record('ib', cells)
+    m.record('ret', {})
+    out = m.call('_ZN7awkward12Int64Builder7complexESt7complexIdE', [Ptr('ret', 0), this, re_, im_])
+    obls = [('the step does not raise', out.raised)]
+    rp = m.cell('ret', 0)
+    cs = [(g, q) for g, q in ptr_cases(rp) if q.obj is not None] if rp is not None else []
+    if len(cs) == 1:
+        nb, base = out.mem.o[cs[0][1].obj], cs[0][1].off
+        cmod = module_of(C128B)
+        fo2 = cmod.types.struct_layout(struct_of(cmod, '_ZNK7awkward17Complex128Builder6lengthEv'))[0]
+        bp, ln = nb.cells[base + fo2[2] + 16][0], nb.cells[base + fo2[2] + 32][0]
+        obls.append(('the complex builder holds one more entry', ln != n + 1))
+        bcs = [(g, q) for g, q in ptr_cases(bp) if q.obj is not None]
+
+        def ent(k):
+            v = None
+            for g, q in bcs:
+                e = z3.Select(out.mem.o[q.obj].arr, z3.simplify(q.off + k))
+                v = e if v is None else z3.If(g, e, v)
+            return v
+        for i in range(n):
+            old = z3.Select(a0, BV(i))
+            obls.append(('entry %d is the integer as a complex number' % i, z3.Or(z3.fpToIEEEBV(ent(2 * i)) != z3.fpToIEEEBV(z3.fpSignedToFP(z3.RNE(), old, z3.Float64())), z3.Not(z3.fpIsZero(ent(2 * i + 1))))))
+        obls.append(('the last entry is the appended number', z3.And(z3.Not(z3.fpIsNaN(re_)), z3.Not(z3.fpIsNaN(im_)), z3.Or(z3.fpToIEEEBV(ent(2 * n)) != z3.fpToIEEEBV(re_), z3.fpToIEEEBV(ent(2 * n + 1)) != z3.fpToIEEEBV(im_)))))
+    else:
+        obls.append(('a builder is returned', z3.Not(out.raised)))
+
+    def replay(model, ent_):
+        import subprocess, os
+        drv = r'''
+#include <cstdio>
+#include <cstdlib>
+#include <complex>
+#include "awkward/builder/ArrayBuilder.h"
+#include "awkward/builder/ArrayBuilderOptions.h"
+#include "awkward/Content.h"
+using namespace awkward;
+int main(int argc, char** argv) {
+  int n = atoi(argv[1]); long cap = atol(argv[2]);
+  ArrayBuilder b(ArrayBuilderOptions(cap, 1.5));
+  for (int i = 0; i < n; i++) b.integer(100 + i);
+  b.complex(std::complex<double>(1.5, 2.5));
+  std::string js = b.snapshot().get()->tojson(false, -1);
+  int bad = (b.length() != n + 1) ? 1 : 0;
+  printf("bad=%d %s\n", bad, js.substr(0, 120).c_str());
+  return bad ? 1 : 0;
+}
+'''
+        try:
+            exe = fullnative_link(drv)
+        except Exception as e:      # noqa
+            return False, 'replay driver did not build: %s' % str(e)[-600:], {}
+        r = subprocess.run([exe, str(n), str(reserved_c)], capture_output=True, text=True, timeout=30,
+                           env=dict(os.environ, ASAN_OPTIONS='detect_leaks=0', UBSAN_OPTIONS='halt_on_error=1:exitcode=87'), errors='replace')
+        payload = dict(integers=n, capacity=reserved_c, native=r.stdout.strip()[:200])
+        if r.returncode != 0:
+            return True, '%d integers (initial capacity %d) then a complex number: native builders give %s %s' % (n, reserved_c, r.stdout.strip()[:120], [l[:160] for l in r.stderr.splitlines() if 'ERROR' in l or 'runtime error' in l][:1]), payload
+        return False, 'native builders agree (%s)' % r.stdout.strip()[:100], payload
+    return mdischarge(m, 'Int64Builder::complex after %d integers, capacity %d' % (n, reserved_c), obls, [], replay=replay,
+                      extra=dict(bounds='%d integers (any values) in a buffer of capacity %d, any complex number' % (n, reserved_c)))
+
+
+_jobs_enc = jobs
+
+
+def jobs(tier):
+    return _jobs_enc(tier) + [(h_int64_complex, a, 900) for a in ([(0, 4), (3, 4)] if tier == 'quick' else [(0, 4), (1, 4), (2, 4), (3, 4), (4, 4), (5, 8)])]
